@@ -1,5 +1,6 @@
 """C03 — no phantom definitions; "possibly undefined" exact; never-bound names flagged (subset direction + unbound component)"""
 import contracts.nast_flow  # noqa
+import contracts.linter  # noqa
 import contracts.tables  # noqa
 import contracts.names  # noqa
 import contracts.positions  # noqa
